@@ -81,10 +81,25 @@ pub use types::{
 };
 
 /// Helper for taking a lock on the wallet instance
+#[cfg(not(feature = "verif_hooks"))]
 #[macro_export]
 macro_rules! wallet_lock {
 	($wallet_inst: expr, $wallet: ident) => {
 		let inst = $wallet_inst.clone();
+		let mut w_lock = inst.lock();
+		let w_provider = w_lock.lc_provider()?;
+		let $wallet = w_provider.wallet_inst()?;
+	};
+}
+
+/// Helper for taking a lock on the wallet instance (verification build:
+/// announces the acquisition to `verif::before_wallet_lock` first)
+#[cfg(feature = "verif_hooks")]
+#[macro_export]
+macro_rules! wallet_lock {
+	($wallet_inst: expr, $wallet: ident) => {
+		let inst = $wallet_inst.clone();
+		$crate::verif::before_wallet_lock(file!(), line!());
 		let mut w_lock = inst.lock();
 		let w_provider = w_lock.lc_provider()?;
 		let $wallet = w_provider.wallet_inst()?;
